@@ -95,6 +95,28 @@ def run(ctx, repo):
     else:
         ctx.finding('R1', '%s::%s.from_actions::dispatch by name' % (HJ, COMP), HJ, fa.lineno,
                     'from_actions no longer dispatches each record by method name with the logged argument')
+    # every record is re-applied: the replay loop has no break / continue / return and its dispatch call is not conditional on the
+    # state reached so far (a finished-looking state such as 'won' still accepts the winner's further trials)
+    loops = [n for n in ast.walk(fa) if isinstance(n, ast.For) and any(isinstance(c, ast.Call) and call_name(c) == 'getattr' for c in ast.walk(n))]
+    if not loops:
+        ctx.finding('R1', '%s::%s.from_actions::replay loop' % (HJ, COMP), HJ, fa.lineno, 'from_actions has no loop over the records')
+    for lp in loops:
+        skips = [n for n in ast.walk(lp) if isinstance(n, (ast.Break, ast.Continue, ast.Return))]
+        tgt_names = {x.id for x in ast.walk(lp.target) if isinstance(x, ast.Name)}
+        cond_state = []
+        for n in ast.walk(lp):
+            if isinstance(n, ast.If):
+                tn = {x.id for x in ast.walk(n.test) if isinstance(x, ast.Name)}
+                if not (tn <= tgt_names | {'isinstance', 'dict', 'type', 'len', 'tuple', 'list', 'str'}):
+                    cond_state.append(n)
+        if skips or cond_state:
+            bad = (skips + cond_state)[0]
+            ctx.finding('R1', '%s::%s.from_actions::records skipped' % (HJ, COMP), HJ, bad.lineno,
+                        'from_actions does not re-apply every record: `%s` makes the replay of a record depend on the state reached so far '
+                        '(after a win the winner may go on jumping; those trials are in the log and on the card)' % unparse(bad)[:70],
+                        'winner clears another height after the competition is won, then from_actions()')
+        else:
+            ctx.ok('R1', 'from_actions re-applies every record (no break/continue/return, no state-dependent branch in the loop)')
     new_obj = [n for n in ast.walk(fa) if isinstance(n, ast.Assign) and isinstance(n.value, ast.Call)
                and ast.unparse(n.value.func) in ('self.__class__', COMP, 'type(self)')]
     if not new_obj:
@@ -130,6 +152,31 @@ def run(ctx, repo):
                 continue
         ctx.ok('R1', '%s.%s does not change competition state' % (COMP, name))
     ctx.floor('other public methods examined for unlogged writes', n_other, 6)
+    # alias-aware second opinion (sa/purity.py): observers of both classes, properties included; a change made through a local alias
+    # of a state object (`card = j.attempts_by_height; card += [...]`) is a change of the competition
+    from ..purity import impure_methods
+    imp = impure_methods(mod)
+    n_obs = 0
+    for q, fn in mod.functions.items():
+        cls_, _, name = q.partition('.')
+        if cls_ not in (COMP, 'Jumper') or not name or name.startswith('_'):
+            continue
+        if cls_ == COMP and (name in MUTATORS or name in ('bib_trial', 'from_actions', 'from_matrix')):
+            continue
+        if cls_ == 'Jumper' and name in ('cleared', 'failed', 'passed', 'retired'):
+            continue
+        if any(isinstance(d, ast.Name) and d.id in ('classmethod', 'staticmethod') for d in fn.decorator_list):
+            continue
+        n_obs += 1
+        if q in imp:
+            ln, why = imp[q][0]
+            ctx.finding('R1', '%s::%s::unlogged state change' % (HJ, q), HJ, ln,
+                        '%s is an observer (it writes no log record) but changes the competition: %s. Reading a competition must not change '
+                        'it: the original and its replay differ after the first export' % (q, why),
+                        'to_matrix() on a competition where an athlete has fewer card entries than there are heights, then compare with from_actions()')
+    ctx.floor('observers examined with alias tracking', n_obs, 10)
+    if not any('unlogged state change' in f.construct for f in ctx.findings):
+        ctx.ok('R1', '%d observers (methods and properties of both classes) change no state, aliases included' % n_obs)
 
     # ---- R2 letters
     al = None
